@@ -45,8 +45,8 @@ INIT = ("running", "none", 0, 0, "none")
 # ---------------------------------------------------------------------------------------------------------------------
 # configurations
 def mk(kind="normal", backend="local", maxR=UNSET, hook=("unset", True), restartOn=("ResourceExhausted",), shutdownOn=(),
-       stable=True, entry="controller"):
-    return {"kind": kind, "backend": backend, "maxR": maxR, "hookFile": hook[0], "onDisk": hook[1],
+       stable=True, entry="controller", answers="full"):
+    return {"answers": answers, "kind": kind, "backend": backend, "maxR": maxR, "hookFile": hook[0], "onDisk": hook[1],
             "restartOn": sorted(restartOn), "shutdownOn": sorted(shutdownOn), "stable": stable, "entry": entry}
 
 
@@ -60,13 +60,16 @@ def config_family(tier):
     cs = []
     if tier == "quick":
         # budget x hook file (default budget 3 / unlimited for a named hook), two reasons that reach the hook protocol
-        cs += [mk(maxR=m, hook=h, restartOn=HOOKED) for m in MAXR for h in (HOOKS[0], HOOKS[3])]
+        full = {(UNSET, "unset"), (2, "unset"), (UNSET, "named")}
+        cs += [mk(maxR=m, hook=h, restartOn=HOOKED, answers="full" if (m, h[0]) in full else "core")
+               for m in MAXR for h in (HOOKS[0], HOOKS[3])]
         cs += [mk(maxR=m, hook=h, restartOn=HOOKED) for m in (UNSET, 1) for h in (HOOKS[1], HOOKS[2], HOOKS[4])]
         # restartHookOn sets x backend
         sets = [(), ("ResourceExhausted",), ("SubmissionFailed", "ResourceExhausted"),
                 ("SubmissionFailed", "SystemIssue", "Success"), tuple(LISTABLE), ("UnknownIssue",)]
-        cs += [mk(backend=b, maxR=m, restartOn=s) for s in sets for b, ms in (("local", (UNSET, 1)), ("sim", (UNSET,)),
-                                                                                ("simoff", (2,))) for m in ms]
+        cs += [mk(backend=b, maxR=m, restartOn=s, answers="core" if len(s) > 3 else "full")
+               for s in sets for b, m in (("local", UNSET), ("sim", UNSET), ("simoff", 2))]
+        cs += [mk(maxR=1, restartOn=s) for s in (sets[2], sets[3])]
         # unstable system (the third branch of _restartComponent calls the engine for reasons that are not listed)
         cs += [mk(backend=b, restartOn=s, stable=False) for s in [(), ("ResourceExhausted",), ("KnownIssue",)]
                for b in ("local", "sim")]
@@ -78,7 +81,7 @@ def config_family(tier):
         cs += [mk(kind="repeating", maxR=m, restartOn=s, entry="engine") for m in (UNSET, 0, -1)
                for s in [("ResourceExhausted",), ()]]
         # Engine.restart on its own (no controller gate, refused attempts may be repeated)
-        cs += [mk(maxR=m, hook=h, restartOn=HOOKED, entry="engine")
+        cs += [mk(maxR=m, hook=h, restartOn=HOOKED, entry="engine", answers="full" if (m, h[0]) == (UNSET, "unset") else "core")
                for m, h in [(UNSET, HOOKS[0]), (0, HOOKS[0]), (1, HOOKS[0]), (-1, HOOKS[0]), (UNSET, HOOKS[3]), (2, HOOKS[3]),
                             (2, HOOKS[2]), (3, HOOKS[1])]]
         cs += [mk(backend=b, maxR=2, restartOn=("SubmissionFailed", "KnownIssue"), entry="engine") for b in ("sim", "simoff")]
@@ -86,18 +89,20 @@ def config_family(tier):
         sets = [(), ("ResourceExhausted",), RICH, ("SubmissionFailed", "ResourceExhausted"),
                 ("SubmissionFailed", "SystemIssue", "Success"), tuple(LISTABLE), ("UnknownIssue",),
                 ("KnownIssue", "SystemIssue", "UnknownIssue")]
-        cs += [mk(backend=b, maxR=m, hook=h, restartOn=s) for m in MAXR for h in HOOKS for b in ("local", "sim", "simoff")
+        cs += [mk(maxR=m, hook=h, restartOn=s) for m in MAXR for h in HOOKS for s in sets]
+        cs += [mk(backend=b, maxR=m, hook=h, restartOn=s) for m in MAXR for h in (HOOKS[0], HOOKS[3]) for b in ("sim", "simoff")
                for s in sets]
-        cs += [mk(backend=b, maxR=m, hook=h, restartOn=s, stable=False) for m in (UNSET, 0, 2) for h in HOOKS[:4:3]
-               for b in ("local", "sim") for s in sets]
+        cs += [mk(backend=b, maxR=m, restartOn=s, stable=False) for m in (UNSET, 0, 2) for b in ("local", "sim") for s in sets]
         cs += [mk(restartOn=s, shutdownOn=sh, stable=st) for s in [("ResourceExhausted",), ("KnownIssue", "Success")]
                for sh in [("KnownIssue",), ("KnownIssue", "ResourceExhausted", "SubmissionFailed"), ("Success",)]
                for st in (True, False)]
         cs += [mk(kind="repeating", maxR=m, restartOn=s, stable=st, entry=e) for m in MAXR
                for s in [("ResourceExhausted",), (), ("KnownIssue",), tuple(LISTABLE)] for st in (True, False)
                for e in ("controller", "engine")]
-        cs += [mk(backend=b, maxR=m, hook=h, restartOn=s, entry="engine") for m in MAXR for h in HOOKS
-               for b in ("local", "sim") for s in [("ResourceExhausted", "KnownIssue"), ("SubmissionFailed", "KnownIssue"), ()]]
+        cs += [mk(maxR=m, hook=h, restartOn=s, entry="engine") for m in MAXR for h in HOOKS
+               for s in [HOOKED, ("SubmissionFailed", "KnownIssue"), ()]]
+        cs += [mk(backend=b, maxR=m, restartOn=s, entry="engine") for m in MAXR for b in ("sim", "simoff")
+               for s in [HOOKED, ("SubmissionFailed", "KnownIssue")]]
     out, seen = [], set()
     for c in cs:
         k = json.dumps(c, sort_keys=True)
@@ -115,9 +120,10 @@ def tla_str_set(xs):
 
 def tla_config(c):
     return ('[id |-> %d, kind |-> "%s", backend |-> "%s", maxR |-> %d, hookFile |-> "%s", onDisk |-> %s, restartOn |-> %s, '
-            'shutdownOn |-> %s, stable |-> %s, entry |-> "%s"]' % (
+            'shutdownOn |-> %s, stable |-> %s, entry |-> "%s", answers |-> "%s"]' % (
                 c["id"], c["kind"], c["backend"], c["maxR"], c["hookFile"], "TRUE" if c["onDisk"] else "FALSE",
-                tla_str_set(c["restartOn"]), tla_str_set(c["shutdownOn"]), "TRUE" if c["stable"] else "FALSE", c["entry"]))
+                tla_str_set(c["restartOn"]), tla_str_set(c["shutdownOn"]), "TRUE" if c["stable"] else "FALSE", c["entry"],
+                c.get("answers", "full")))
 
 
 def write_mc_module(name, configs, extends="Restart", extra=""):
@@ -172,7 +178,7 @@ def tlc_design(chk, tier, configs):
         raise MachineryError("Restart.tla: %s fails on the design:\n%s" % (r["violated"], r["out"][-2500:]))
     chk.add_tlc(r)
     # the predicates over the last event, on the full state (no VIEW), for a slice of the family
-    small = [c for i, c in enumerate(configs) if i % (4 if tier == "quick" else 16) == 0]
+    small = [c for i, c in enumerate(configs) if i % (6 if tier == "quick" else 40) == 0]
     mod_s = "Restart_mcs_%s" % tier
     write_mc_module(mod_s, small)
     r = run_tlc(mod_s, design_cfg("Restart_designfull_%s" % tier, "MCNoDeviation", 8, False), coverage=True, timeout=800)
@@ -191,7 +197,7 @@ def tlc_design(chk, tier, configs):
     write_mc_module("Restart_mcw", wit)
     for d in DEVIATIONS:
         r = run_tlc("Restart_mcw", design_cfg("Restart_dev_%s" % d, "MCDev_%s" % d, 9, False), expect_violation=True,
-                    timeout=300)
+                    timeout=300, workers=1)
         if r["violated"] != DEV_INVARIANT[d]:
             raise MachineryError("deviation %s: TLC was expected to violate %s, got %r\n%s" % (
                 d, DEV_INVARIANT[d], r["violated"], r["out"][-1500:]))
@@ -207,8 +213,9 @@ def skey(s):
 def tlc_edges(chk, tier, configs):
     mod = "Restart_mc_%s" % tier
     # restarts <= 5 (beyond the default budget 3), the resubmission counter is bounded by the policy itself, runs never binds
-    body = ("CONSTANTS\n  Configs <- MCConfigs\n  MaxRuns = 40\n  MaxCount = 5\n  Deviations <- MCNoDeviation\n  Emit = TRUE\n"
-            "SPECIFICATION Spec\nCONSTRAINT Bounded\nVIEW EdgeView\nACTION_CONSTRAINT EmitEdge\nCHECK_DEADLOCK FALSE\n")
+    body = ("CONSTANTS\n  Configs <- MCConfigs\n  MaxRuns = 40\n  MaxCount = %d\n  Deviations <- MCNoDeviation\n  Emit = TRUE\n"
+            "SPECIFICATION Spec\nCONSTRAINT Bounded\nVIEW EdgeView\nACTION_CONSTRAINT EmitEdge\nCHECK_DEADLOCK FALSE\n" % (
+                4 if tier == "quick" else 5))
     r = run_tlc(mod, write_cfg("Restart_edges_%s" % tier, body), workers=1, timeout=1500)
     if not r["ok"]:
         raise MachineryError("edge emission failed:\n%s" % r["out"][-2000:])
@@ -383,7 +390,7 @@ def replay_config(chk, world, W, cfg, es, stats):
             bad = compare(cfg, e, obs, runs_before)
             if bad:
                 blocked.add(i)
-                chk.violation(step_class(cfg, e),
+                report(chk, step_class(cfg, e),
                               "%s; after %s the step %s(%s%s) from %s: %s" % (
                                   describe(cfg), brief(path[:-1]), e["ev"]["act"], e["ev"]["reason"],
                                   "" if e["ev"]["answer"] == "na" else ", hook answers " + e["ev"]["answer"],
@@ -393,6 +400,15 @@ def replay_config(chk, world, W, cfg, es, stats):
         chk.trace_validated(1)
     if stats["tours"] % 50 == 1:
         chk.sample({"cfg": describe(cfg), "edges": len(es), "example_tour": brief([es[i]["ev"] for i in tour][:12])}, limit=4)
+
+
+def report(chk, key, what, replay):
+    """at most 3 VIOLATION records per key (class of input); the others are counted in the evidence"""
+    seen = chk.cov.setdefault("c12_cases_per_key", {})
+    k = "%s [%s]" % (key, replay["kind"])
+    seen[k] = seen.get(k, 0) + 1
+    if seen[k] <= (3 if replay["kind"] == "edge-path" else 1) or key in chk.known_keys:
+        chk.violation(key, what, replay)
 
 
 def cfg_key(cfg):
@@ -433,7 +449,7 @@ def vacuity_of_edges(configs, edges):
                 need["resub cap reached"] = True
             if ev["code"] == "RestartMaxAttemptsExceeded" and c["maxR"] == UNSET and pre["restarts"] == 3:
                 need["default budget 3 exhausted"] = True
-            if ev["ran"] and post["restarts"] >= 5:
+            if ev["ran"] and post["restarts"] >= 4:
                 need["restart beyond 3 (unlimited)"] = True
             if ev["act"] == "Exit" and pre["resub"] > 0 and post["resub"] == 0:
                 need["reset on Success"] = True
@@ -595,14 +611,14 @@ def judge_traces(chk, traces, verdicts):
         chk.trace_validated(1)
         if v["explained"] < v["len"]:
             i = v["explained"]
-            chk.violation(walk_step_class(cfg, steps, i),
+            report(chk, walk_step_class(cfg, steps, i),
                           "%s: step %d of the recorded run %s is not a step of Restart.tla (observed %s)" % (
                               describe(cfg), i + 1, brief_steps(steps[:i + 1]), steps[i]),
                           {"kind": "trace", "cfg": cfg, "steps": steps[:i + 1]})
         elif v["failing_at"] is not None:
             i = v["failing_at"]
             key = DEV_KEY.get(v["dev"], "trace-invariant:" + "+".join(v["failing"]))
-            chk.violation(key, "%s: after the recorded run %s the C12 predicate(s) %s are false (Engine.restarts=%s, "
+            report(chk, key, "%s: after the recorded run %s the C12 predicate(s) %s are false (Engine.restarts=%s, "
                                "resubmissions=%s, task starts=%s)" % (describe(cfg), brief_steps(steps[:i]), v["failing"],
                                                                      steps[i - 1]["restarts"], steps[i - 1]["resub"],
                                                                      steps[i - 1]["runs"]),
@@ -658,7 +674,7 @@ def run(tier):
     stats.update(random_traces(chk, tier, configs, chk.scratch))
     chk.cov["c12"] = dict(stats, configurations=len(configs))
     chk.cov["rule"] = ("every edge (configuration, Engine.restarts, resubmission counter, last exit reason, event) of the "
-                       "state graph of Restart.tla for the configuration family, restarts <= 6; distinct = distinct "
+                       "state graph of Restart.tla for the configuration family, Engine.restarts <= 4 (quick) / 5 (thorough); distinct = distinct "
                        "(configuration, decision state, event)")
     chk.cov["exhaustive"] = True
     chk.assumptions += [
@@ -672,24 +688,48 @@ def run(tier):
 def replay(path):
     from .. import world_c12 as W
     d = json.load(open(path))
-    chk = Check(PID, "quick")
+    chk = Check(PID, "replay")          # violation files of a replay are replay_<n>.json: the recorded case is not overwritten
     rp = d["replay"]
     cfg = rp["cfg"]
     default_hook = cfg["onDisk"] if cfg["hookFile"] == "unset" else True
     world = W.World(chk.scratch, [cfg], default_hook)
     try:
         inst = W.Instance(world, cfg["id"])
-        for e in rp["path"]:
-            runs_before = inst.runs
-            obs = do_step(inst, e["ev"])
-            bad = compare(cfg, e, obs, runs_before)
-            print("  %-12s %-18s %-16s -> code=%s runs=%d restarts=%d resub=%d final=%s%s" % (
-                e["ev"]["act"], e["ev"]["reason"], e["ev"]["answer"], obs["code"], obs["runs"], obs["restarts"], obs["resub"],
-                obs["final"], "   MISMATCH " + "; ".join(bad) if bad else ""))
-            if bad:
-                chk.violation(step_class(cfg, e), "%s: %s" % (describe(cfg), "; ".join(bad)), rp)
-                break
-            chk.evaluated((cfg_key(cfg), skey(e["pre"]), e["ev"]["act"], e["ev"]["reason"], e["ev"]["answer"]))
+        print("replaying on the real code: %s" % describe(cfg))
+        if rp["kind"] == "edge-path":
+            for e in rp["path"]:
+                runs_before = inst.runs
+                obs = do_step(inst, e["ev"])
+                bad = compare(cfg, e, obs, runs_before)
+                show(e["ev"], obs, bad)
+                if bad:
+                    chk.violation(step_class(cfg, e), "%s: %s" % (describe(cfg), "; ".join(bad)), rp)
+                    break
+                chk.evaluated((cfg_key(cfg), skey(e["pre"]), e["ev"]["act"], e["ev"]["reason"], e["ev"]["answer"]))
+        else:
+            steps = []
+            for st in rp["steps"]:
+                runs_before = inst.runs
+                ev = dict(st)
+                if st["act"] in ("PostMortem", "Direct"):
+                    ev["reason"] = inst.engine.exitReason()
+                obs = do_step(inst, ev)
+                show(ev, obs, [])
+                steps.append(dict({k: st[k] for k in ("act", "reason", "answer")}, **project(obs, runs_before)))
+            judge_traces(chk, [(cfg, steps)], validate_traces(chk, "quick", [(cfg, steps)], name="Restart_traces_replay"))
     finally:
         world.close()
-    return chk.finish()
+    # a replay does not rewrite evidence/C12.json
+    import shutil
+    shutil.rmtree(chk.scratch, ignore_errors=True)
+    for k, n in chk.known_hit.items():
+        print("KNOWN-FINDING: property=%s %s [key=%s]" % (PID, chk.known_keys[k]["what"], k))
+    print("%s replay: %s" % (PID, "VIOLATION reproduced" if chk.violations else
+                             ("known finding reproduced" if chk.known_hit else "no violation")))
+    return 1 if chk.violations else 0
+
+
+def show(ev, obs, bad):
+    print("  %-12s %-18s %-16s -> code=%s starts=%d Engine.restarts=%d resubmissions=%d final=%s%s" % (
+        ev["act"], ev["reason"], ev["answer"], obs["code"], obs["runs"], obs["restarts"], obs["resub"], obs["final"],
+        "   MISMATCH " + "; ".join(bad) if bad else ""))
